@@ -230,9 +230,9 @@ func genCase(front string) func(t *rapid.T) Case {
 func init() {
 	rule := "n in 1..10, 1..8 constraints over distinct variables, arity 1..8, coefficients in [-W,W] (W in 1,4,9, zero included), degree from below the minimum to above the maximum of the left-hand side, relations >=,<=,=, unit constraints mixed in; a fifth of the cases are solved with the cutting-planes strategy; oracle = integer arithmetic over all 2^n assignments on the constraints as written; non-trivial = a non-clausal constraint survives parsing and >=1 decision"
 	vf.Register(
-		vf.Sub[Case]{Name: "pb-front", Quick: 20000, Thorough: 250000, Gen: genCase("pb"), Check: check, Floor: 0.2,
+		vf.Sub[Case]{Name: "pb-front", Quick: 20000, Thorough: 125000, Gen: genCase("pb"), Check: check, Floor: 0.2,
 			Rule: "ParsePBConstrs via GtEq/LtEq/Eq/AtLeast/AtMost/PropClause; " + rule},
-		vf.Sub[Case]{Name: "card-front", Quick: 20000, Thorough: 250000, Gen: genCase("card"), Check: check, Floor: 0.2,
+		vf.Sub[Case]{Name: "card-front", Quick: 20000, Thorough: 125000, Gen: genCase("card"), Check: check, Floor: 0.2,
 			Rule: "ParseCardConstrs via CardConstr/AtLeast1/AtMost1/Exactly1; " + rule},
 		vf.Sub[Case]{Name: "pb-structured", Quick: 4000, Thorough: 50000, Gen: genStructured("pb"), Check: check, Floor: 0.5,
 			Classes: map[string]float64{"conflicts>0": 0.2},
